@@ -396,7 +396,10 @@ class Spec(core.PropSpec):
             forms.add(kind)
             out.ev("acc", op, h(got))
             if stack.get("jointprobe"):
-                d = self._joint_consistency(got, exp, mode, rc)
+                try:
+                    d = self._joint_consistency(got, exp, mode, rc)
+                except Exception as e:  # a malformed result is a mismatch, not a harness problem
+                    d = f"malformed result {str(got)[:120]} ({type(e).__name__}: {e})"
                 if d:
                     out.violate("C01:fused-members-not-from-one-joint-load", f"{kind},fused", f"mode='{mode}' return_ctx={rc} access {op}: {d}")
                     break
